@@ -49,12 +49,14 @@ Definition forward (s : state) (e : ev14) : list out :=
 Section Answer.
   (* SharesManager.query q username=u: (visible, locked) item ids *)
   Variable query : name -> nat -> list nat * list nat.
+  (* Settings.users.is_blocked(user, BlockingFlag.SEARCHES) *)
+  Variable blocked : name -> bool.
 
   Definition is_nil {A} (l : list A) : bool := match l with [] => true | _ => false end.
 
   (* _query_shares_and_reply *)
   Definition reply_for (s : state) (u : name) (t : Z) (q : nat) : list reply :=
-    if session s then
+    if session s && negb (answer_blocked_gate && blocked u) then
       let r := query u q in
       if is_nil (fst r) && is_nil (snd r) then [] else [mkReply u t me (fst r) (snd r)]
     else [].
